@@ -39,9 +39,9 @@ Proof. exact linext_unique. Qed.
 
 (* The edges of a file depend only on the set of addresses that have a line,
    not on where the lines stand. *)
-Theorem C13_same_edges : forall A apropos fuel (ms1 ms2 : list (message A)) cur,
+Theorem C13_same_edges : forall A apropos fuel (ms1 ms2 : list (message A)) orig cur,
   Permutation ms1 ms2 ->
-  scan_deps apropos (map_keys A ms1) fuel cur = scan_deps apropos (map_keys A ms2) fuel cur.
+  scan_deps apropos (map_keys A ms1) fuel orig cur = scan_deps apropos (map_keys A ms2) fuel orig cur.
 Proof. exact same_edges. Qed.
 
 (* Every "enabled by" / "depends" / "default depends" reference - of the port a
@@ -55,7 +55,7 @@ Theorem C13_edges_complete : forall A apropos fuel (ms : list (message A)) ps k 
   In ic (flagged (ancestors k)) ->
   apropos (if fst ic then snd ic ++ [slash] else snd ic) = Some m ->
   In e (dep_values m) -> rel2abs e (snd ic) = Some t ->
-  index_of A t ms = Some i -> has_key (map_keys A ms) t = true ->
+  index_of A t ms = Some i -> has_key (map_keys A ms) t = true -> t <> k ->
   In (i, o) ps.
 Proof. exact edges_complete. Qed.
 
@@ -128,7 +128,7 @@ Proof. exact load_order_topo_tree. Qed.
    produced no edge *)
 Theorem C13_edge_of_enumerated_subtree_before_fix_refuted :
   exists apropos keys cur,
-    scan_deps apropos keys 8 cur = Some [p_on] /\ scan_deps_old apropos keys 8 cur = Some [].
+    scan_deps apropos keys 8 cur cur = Some [p_on] /\ scan_deps_old apropos keys 8 cur = Some [].
 Proof. exact edge_of_enumerated_subtree_before_fix_refuted. Qed.
 
 (* regression: before the fix the empty rest behind rDepends' trailing ',' was
@@ -137,7 +137,7 @@ Proof. exact edge_of_enumerated_subtree_before_fix_refuted. Qed.
 Theorem C13_trailing_comma_entry_before_fix_refuted :
   entries_old [113; 44]%Z = [[113; 44]; []]%Z /\ entries [113; 44]%Z = [[113; 44]]%Z /\
   exists apropos cur,
-    scan_deps apropos [] 40 cur = Some [] /\ scan_deps_old2 apropos [] 40 cur = None.
+    scan_deps apropos [] 40 cur cur = Some [] /\ scan_deps_old2 apropos [] 40 cur = None.
 Proof. exact trailing_comma_entry_before_fix_refuted. Qed.
 
 (* non-vacuity: "/b" declares default depends = "a"; file order /b, /a;
